@@ -798,4 +798,6 @@ def run(ctx):
     ctx.guard(harden.run_fixed, ctx, prog, 'C15.R14', parse_funcs(prog)[1], 'datagram path')
     ctx.guard(harden.run, ctx, prog, 'C15.R8', [prog.fn1(DNS + '::onUdpRecv')],
               lambda g: g.file.startswith(MODULES + '/network/') or g.file.startswith(MODULES + '/util/'), 'DNS datagram path')
+    from tbxlint import progress
+    ctx.guard(progress.run_files, ctx, prog, 'C15.R15', ['network/dns_request.cpp', 'network/udp_socket.cpp', 'util/serializer.cpp', 'eventx/timeout_monitor_impl.hpp'], 'DNS datagram path', floor=1)
     return prog
